@@ -157,6 +157,8 @@ def run(rep, tier, driver):
             mleaves = sorted(tree[0][i] for i in fr["tree"]["leaves"])
             if mleaves != got["leaves"]:
                 rep.broken.append("leaves model: %r vs summary()['leaves'] %r on %r" % (mleaves, got["leaves"], s))
+            if fr["tree"].get("depth") != got.get("depth"):
+                rep.broken.append("depth model: %r vs summary()['depth'] %r on %r" % (fr["tree"].get("depth"), got.get("depth"), s))
         if smi2 != smi or summ2 != summ:
             rep.violation("history", {"iupac": s, "what": "get_smiles/summary repeated after summary, count, save_dot"}, {"smiles": smi2}, {"smiles": smi}, key="repeat:" + s)
         # save_dot: same nodes and edges as the tree
